@@ -64,6 +64,7 @@ class BaseParser:
 
     def __init__(self, obj, options: Options = None):
         self._forward_lock = threading.RLock()
+        self._forward_resolving = False
         self.obj = obj
         self.init_kwargs = {"options": options}
         self.options: Options = self.options_cls.generate_from(options)
@@ -211,13 +212,18 @@ class BaseParser:
         return item in self.fields
 
     def resolve_forward_refs(self, local_vars=None, ignore_errors: bool = True):
-        if not self.forward_refs:
+        if not self.forward_refs and not self._forward_resolving:
             return False
         # the first calls of several threads arrive here together: resolve once, the others wait
+        # (the table is emptied before the fields have been switched over: _forward_resolving covers that window)
         with self._forward_lock:
             if not self.forward_refs:
                 return False
-            return self._resolve_forward_refs(local_vars=local_vars, ignore_errors=ignore_errors)
+            self._forward_resolving = True
+            try:
+                return self._resolve_forward_refs(local_vars=local_vars, ignore_errors=ignore_errors)
+            finally:
+                self._forward_resolving = False
 
     def _resolve_forward_refs(self, local_vars=None, ignore_errors: bool = True):
         clear_refs = []
@@ -267,6 +273,7 @@ class BaseParser:
                 field.resolve_forward_refs()
             # resolve for types
             self.addition_type, r = resolve_forward_type(self.addition_type)
+            self.resolve_forward_types()
         if self.is_local:
             # ForwardRef in local vars is not cachable
             # where typing is using a lru_cache
@@ -275,6 +282,11 @@ class BaseParser:
                 ref.__forward_evaluated__ = False
                 ref.__forward_value__ = None
         return resolved
+
+    def resolve_forward_types(self):
+        # further types of a subclass that may hold late references
+        # (called under the lock, before the marks of a local declaration's references are reset)
+        pass
 
     @classmethod
     def validate_field_name(cls, name: str):
